@@ -101,7 +101,9 @@ Lemma atts_set_orc_r v s : atts (set_orc_r v s) = atts s. Proof. reflexivity. Qe
 Lemma atts_set_orc_s v s : atts (set_orc_s v s) = atts s. Proof. reflexivity. Qed.
 Lemma atts_set_proxy v s : atts (set_proxy v s) = atts s. Proof. reflexivity. Qed.
 Lemma atts_set_rearmed_v v s : atts (set_rearmed_v v s) = atts s. Proof. reflexivity. Qed.
-#[export] Hint Rewrite atts_set_leader atts_set_valid atts_set_rt atts_set_sel_attempts atts_set_inv_retry atts_set_busy_thr atts_set_lb_count atts_set_lb_peer atts_set_lb_probed atts_set_q_rt atts_set_q_rr atts_set_q_stale atts_set_q_retry atts_set_bo_total atts_set_bo_excl atts_set_orc_r atts_set_orc_s atts_set_proxy atts_set_rearmed_v : atts_db.
+Lemma atts_set_pidx v s : atts (set_pidx v s) = atts s. Proof. reflexivity. Qed.
+Lemma atts_unset_if c s : atts (unset_if c s) = atts s. Proof. unfold unset_if. destruct (_ && _); reflexivity. Qed.
+#[export] Hint Rewrite atts_set_leader atts_set_valid atts_set_rt atts_set_sel_attempts atts_set_inv_retry atts_set_busy_thr atts_set_lb_count atts_set_lb_peer atts_set_lb_probed atts_set_q_rt atts_set_q_rr atts_set_q_stale atts_set_q_retry atts_set_bo_total atts_set_bo_excl atts_set_orc_r atts_set_orc_s atts_set_proxy atts_set_rearmed_v atts_set_pidx atts_unset_if : atts_db.
 Ltac att_same := intros ?r; unfold inval_store; repeat match goal with |- context [if ?b then _ else _] => destruct b end; reflexivity.
 Ltac atts_norm := repeat (first [ progress autorewrite with atts_db | rewrite atts_upd_same by att_same ]).
 
